@@ -11,6 +11,7 @@ package logic
 import (
 	"fmt"
 	"path/filepath"
+	"strings"
 
 	"github.com/q191201771/lal/pkg/httpflv"
 )
@@ -22,6 +23,11 @@ func (group *Group) startRecordFlvIfNeeded(nowUnix int64) {
 	}
 
 	// 构造文件名
+	if !isSafeStreamNameForFile(group.streamName) {
+		Log.Errorf("[%s] stream name invalid for file path, record flv disabled for this stream. streamName=%s", group.UniqueKey, group.streamName)
+		return
+	}
+
 	filename := fmt.Sprintf("%s-%d.flv", group.streamName, nowUnix)
 	filenameWithPath := filepath.Join(group.config.RecordConfig.FlvOutPath, filename)
 
@@ -49,4 +55,14 @@ func (group *Group) stopRecordFlvIfNeeded() {
 		_ = group.recordFlv.Dispose()
 		group.recordFlv = nil
 	}
+}
+
+// isSafeStreamNameForFile
+//
+// 流名称由客户端指定，并且会被拼接到hls、录制文件的路径中。包含路径分隔符，或者是`.`、`..`的流名称会使文件落到配置的输出目录之外。
+func isSafeStreamNameForFile(streamName string) bool {
+	if streamName == "" || streamName == "." || streamName == ".." {
+		return false
+	}
+	return !strings.ContainsAny(streamName, "/\\")
 }
